@@ -265,6 +265,10 @@ class Indicator(_DomainObject):
             except AttributeError:
                 pat_ver = '2.1'
 
+            if not self.get('pattern'):
+                # the pattern validator itself fails on an empty string
+                raise InvalidValueError(self.__class__, 'pattern', "must not be empty.")
+
             errors = run_validator(self.get('pattern'), pat_ver)
             if errors:
                 raise InvalidValueError(self.__class__, 'pattern', str(errors[0]))
